@@ -1,260 +1,207 @@
 package main
 
 // G7 for the event bus (C15): the lock regions and the dispatch structure of
-// spine/events.go that the hand-written models Spine.Bus (Events.lean) and
-// its lock refinement (EventsLock.lean) rest on, extracted with go/ast.
-// A fact that cannot be established is emitted as `false` with a note, never
-// silently: the theorems of Spine/Props/C15Gen.lean then no longer check.
+// spine/events.go, and the sites in package spine that put the local device on
+// the core level of the bus — the facts the hand-written models Spine.Bus
+// (Events.lean), its lock refinement (EventsLock.lean) and the connection model
+// (EventsConn.lean) rest on.
+//
+// The facts are SEMANTIC, not textual: the methods are run through the small
+// abstract interpreter of absint.go, which follows calls to helpers of the same
+// package (in whatever file they live), runs deferred calls at the end of the
+// frame that deferred them, unrolls the loop over the levels and visits an
+// abstract handler list holding one core and one application item in both
+// orders. A refactoring that extracts or inlines helpers, turns if/else into
+// switch, a loop into calls, or renames unexported identifiers leaves them
+// unchanged; a change of a lock region, of the dispatch or of the subscription
+// sites does not. A fact that cannot be established is emitted as `false` with
+// a note, never silently: the theorems of Spine/Props/C15Gen.lean then no
+// longer check.
 
 import (
 	"fmt"
 	"go/ast"
-	"go/parser"
-	"go/token"
-	"os"
 	"path/filepath"
-	"sort"
 	"strings"
 )
 
 func init() { register("eventbus", genEventBus) }
 
-// callName returns "r.mu.Lock" for the statement `r.mu.Lock()` (also inside go / defer), "" otherwise.
-func stmtCall(s ast.Stmt) (name string, kind string) {
-	switch x := s.(type) {
-	case *ast.ExprStmt:
-		if c, ok := x.X.(*ast.CallExpr); ok {
-			return exprString(c.Fun), "call"
+// lockSeq: the lock operations of the main path. Lock operations on exit paths (an early return that releases what it
+// holds) are left out; a path that returns while still holding a mutex nothing will release counts as conditional.
+func lockSeq(ev []aevent) (seq []string, anyCond bool) {
+	for _, e := range ev {
+		if e.kind == "lock" {
+			seq = append(seq, e.op+":"+e.name)
+			anyCond = anyCond || e.cond
 		}
-	case *ast.DeferStmt:
-		return exprString(x.Call.Fun), "defer"
-	case *ast.GoStmt:
-		return exprString(x.Call.Fun), "go"
+		if e.kind == "leak" {
+			seq = append(seq, "returns-holding:"+e.name)
+			anyCond = true
+		}
 	}
-	return "", ""
+	return
 }
 
-// allCalls lists every call in a function body in source order as kind:name.
-func allCalls(fd *ast.FuncDecl) []string {
-	var out []string
-	goCalls := map[*ast.CallExpr]string{}
-	ast.Inspect(fd.Body, func(n ast.Node) bool {
-		switch x := n.(type) {
-		case *ast.GoStmt:
-			goCalls[x.Call] = "go"
-		case *ast.DeferStmt:
-			goCalls[x.Call] = "defer"
-		case *ast.CallExpr:
-			k := goCalls[x]
-			if k == "" {
-				k = "call"
-			}
-			out = append(out, k+":"+exprString(x.Fun))
-		}
-		return true
-	})
-	return out
+func typeString(e ast.Expr) string {
+	switch x := e.(type) {
+	case *ast.Ident:
+		return x.Name
+	case *ast.SelectorExpr:
+		return typeString(x.X) + "." + x.Sel.Name
+	case *ast.StarExpr:
+		return "*" + typeString(x.X)
+	case *ast.ArrayType:
+		return "[]" + typeString(x.Elt)
+	case *ast.MapType:
+		return "map[" + typeString(x.Key) + "]" + typeString(x.Value)
+	}
+	return fmt.Sprintf("%T", e)
 }
 
 func genEventBus(outDir string) (string, error) {
-	fset := token.NewFileSet()
-	f, err := parser.ParseFile(fset, filepath.Join(RepoDir(), "spine", "events.go"), nil, 0)
+	pkg, err := loadPkg(filepath.Join(RepoDir(), "spine"), "verif_hooks")
 	if err != nil {
 		return "", err
 	}
 	var notes []string
 	note := func(format string, a ...any) { notes = append(notes, fmt.Sprintf(format, a...)) }
 
-	// ---- Publish: positions of the four lock operations among the top-level statements
-	muUnlockBeforeHandleLock, handleSpansDispatch, publishOnlyTwoLocks := false, false, false
-	snapshotIsCopy, coreSync, appAsync, coreFirst := false, false, false, false
-	if fd := findFunc(f, "events", "Publish"); fd == nil {
-		note("method events.Publish not found")
-	} else {
-		idx := map[string][]int{}
-		var loopIdx []int
-		for i, st := range fd.Body.List {
-			if n, k := stmtCall(st); n != "" {
-				idx[k+":"+n] = append(idx[k+":"+n], i)
+	// ---- the state of the bus: two mutexes and the handler list (names are free)
+	mutexes := map[string]bool{}
+	listField, levelField := "", ""
+	stateOK := false
+	// the bus is the value of the package variable Events; its type, fields and helpers may have any (unexported) name
+	busType := "events"
+	if t, ok := pkg.varType["Events"]; ok {
+		busType = strings.TrimPrefix(typeString(t), "*")
+	}
+	peersField := "remoteDevices"
+	if st := pkg.structs["DeviceLocal"]; st != nil {
+		for _, fl := range st.Fields.List {
+			if typeString(fl.Type) == "map[string]api.DeviceRemoteInterface" && len(fl.Names) == 1 {
+				peersField = fl.Names[0].Name
 			}
-			if _, ok := st.(*ast.RangeStmt); ok {
-				loopIdx = append(loopIdx, i)
-			}
-		}
-		one := func(k string) int {
-			if len(idx[k]) == 1 {
-				return idx[k][0]
-			}
-			return -1
-		}
-		muL, muU, hL, hU := one("call:r.mu.Lock"), one("call:r.mu.Unlock"), one("call:r.muHandle.Lock"), one("call:r.muHandle.Unlock")
-		if muL < 0 || muU < 0 || hL < 0 || hU < 0 {
-			note("Publish: expected exactly one top-level r.mu.Lock / r.mu.Unlock / r.muHandle.Lock / r.muHandle.Unlock statement each (found at %d %d %d %d)", muL, muU, hL, hU)
-		} else {
-			muUnlockBeforeHandleLock = muL < muU && muU < hL
-			if !muUnlockBeforeHandleLock {
-				note("Publish: r.mu is not released before r.muHandle.Lock() (statements %d %d %d)", muL, muU, hL)
-			}
-			handleSpansDispatch = len(loopIdx) == 1 && hL < loopIdx[0] && loopIdx[0] < hU && hU == len(fd.Body.List)-1
-			if !handleSpansDispatch {
-				note("Publish: the dispatch loop is not enclosed by r.muHandle.Lock() … r.muHandle.Unlock() as last statement")
-			}
-		}
-		// no other lock operation anywhere in Publish (nested or deferred)
-		locks := 0
-		for _, c := range allCalls(fd) {
-			if strings.HasSuffix(c, ".Lock") || strings.HasSuffix(c, ".Unlock") || strings.HasSuffix(c, ".RLock") || strings.HasSuffix(c, ".RUnlock") {
-				locks++
-				if strings.HasPrefix(c, "defer:") || strings.HasPrefix(c, "go:") {
-					locks += 100
-				}
-			}
-		}
-		publishOnlyTwoLocks = locks == 4
-		if !publishOnlyTwoLocks {
-			note("Publish: lock operations other than the four plain top-level ones")
-		}
-		// the snapshot: between mu.Lock and mu.Unlock a fresh slice is made and filled by copy(_, r.handlers);
-		// the dispatch loop ranges over that slice
-		if muL >= 0 && muU > muL {
-			var snap string
-			copied := false
-			for _, st := range fd.Body.List[muL+1 : muU] {
-				switch x := st.(type) {
-				case *ast.AssignStmt:
-					if len(x.Lhs) == 1 && len(x.Rhs) == 1 {
-						if c, ok := x.Rhs[0].(*ast.CallExpr); ok && exprString(c.Fun) == "make" {
-							snap = exprString(x.Lhs[0])
-						}
-					}
-				case *ast.ExprStmt:
-					if c, ok := x.X.(*ast.CallExpr); ok && exprString(c.Fun) == "copy" && len(c.Args) == 2 && exprString(c.Args[0]) == snap && exprString(c.Args[1]) == "r.handlers" {
-						copied = true
-					}
-				}
-			}
-			rangesOverSnap, mentionsHandlersLater := false, false
-			if len(loopIdx) == 1 {
-				ast.Inspect(fd.Body.List[loopIdx[0]], func(n ast.Node) bool {
-					switch x := n.(type) {
-					case *ast.RangeStmt:
-						if exprString(x.X) == snap {
-							rangesOverSnap = true
-						}
-					case *ast.SelectorExpr:
-						if exprString(x) == "r.handlers" {
-							mentionsHandlersLater = true
-						}
-					}
-					return true
-				})
-			}
-			snapshotIsCopy = snap != "" && copied && rangesOverSnap && !mentionsHandlersLater
-			if !snapshotIsCopy {
-				note("Publish: the handler list is not snapshotted by make+copy under r.mu and dispatched from the copy")
-			}
-		}
-		// dispatch: `if level == api.EventHandlerLevelCore { item.Handler.HandleEvent(payload) } else { go item.Handler.HandleEvent(payload) }`
-		ast.Inspect(fd.Body, func(n ast.Node) bool {
-			is, ok := n.(*ast.IfStmt)
-			if !ok {
-				return true
-			}
-			be, ok := is.Cond.(*ast.BinaryExpr)
-			if !ok || be.Op != token.EQL || exprString(be.Y) != "api.EventHandlerLevelCore" {
-				return true
-			}
-			if len(is.Body.List) == 1 {
-				if n, k := stmtCall(is.Body.List[0]); k == "call" && strings.HasSuffix(n, ".HandleEvent") {
-					coreSync = true
-				}
-			}
-			if eb, ok := is.Else.(*ast.BlockStmt); ok && len(eb.List) == 1 {
-				if n, k := stmtCall(eb.List[0]); k == "go" && strings.HasSuffix(n, ".HandleEvent") {
-					appAsync = true
-				}
-			}
-			return true
-		})
-		// exactly two HandleEvent calls in Publish: one plain, one `go`
-		plain, async := 0, 0
-		for _, c := range allCalls(fd) {
-			if strings.HasSuffix(c, ".HandleEvent") {
-				if strings.HasPrefix(c, "go:") {
-					async++
-				} else if strings.HasPrefix(c, "call:") {
-					plain++
-				}
-			}
-		}
-		if plain != 1 || async != 1 {
-			coreSync, appAsync = false, false
-			note("Publish: expected one synchronous and one `go` HandleEvent call (found %d, %d)", plain, async)
-		}
-		if !coreSync {
-			note("Publish: core handlers are not called synchronously")
-		}
-		if !appAsync {
-			note("Publish: application handlers are not started with `go`")
-		}
-		// level order: the composite literal lists Core before Application
-		ast.Inspect(fd.Body, func(n ast.Node) bool {
-			cl, ok := n.(*ast.CompositeLit)
-			if !ok || len(cl.Elts) != 2 {
-				return true
-			}
-			if exprString(cl.Elts[0]) == "api.EventHandlerLevelCore" && exprString(cl.Elts[1]) == "api.EventHandlerLevelApplication" {
-				coreFirst = true
-			}
-			return true
-		})
-		if !coreFirst {
-			note("Publish: handler levels are not processed in the order core, application")
 		}
 	}
+	if st := pkg.structs[busType]; st == nil {
+		note("type of the bus (%s) not found", busType)
+	} else {
+		var other []string
+		for _, fl := range st.Fields.List {
+			t := typeString(fl.Type)
+			names := []string{}
+			for _, n := range fl.Names {
+				names = append(names, n.Name)
+			}
+			if len(names) == 0 {
+				other = append(other, "embedded "+t)
+			}
+			for _, n := range names {
+				switch {
+				case t == "sync.Mutex" || t == "sync.RWMutex":
+					mutexes[n] = true
+				case strings.HasPrefix(t, "[]") && listField == "":
+					listField = n
+					if it := pkg.structs[strings.TrimPrefix(t, "[]")]; it != nil {
+						for _, f := range it.Fields.List {
+							if typeString(f.Type) == "api.EventHandlerLevel" && len(f.Names) == 1 {
+								levelField = f.Names[0].Name
+							}
+						}
+					}
+				default:
+					other = append(other, n+" "+t)
+				}
+			}
+		}
+		stateOK = len(mutexes) == 2 && listField != "" && len(other) == 0
+		if !stateOK {
+			note("type of the bus: expected exactly two mutex fields and the handler list, found mutexes=%d list=%q other=%v", len(mutexes), listField, other)
+		}
+	}
+	mk := func(order int) *interp {
+		in := newInterp(pkg, mutexes, listField, order)
+		in.levelField = levelField
+		in.peersField = peersField
+		return in
+	}
 
-	// ---- subscribe / unsubscribe: one critical section under r.mu, no other lock, no handler call
-	onlyMu := func(name string) bool {
-		fd := findFunc(f, "events", name)
-		if fd == nil || len(fd.Body.List) < 2 {
-			note("method events.%s not found", name)
+	// ---- subscribe / unsubscribe: one critical section under the list mutex (write lock), released last,
+	//      no other lock, no handler invocation, no blocking operation
+	listMu := ""
+	oneSection := func(name string) bool {
+		in := mk(0)
+		if !in.run(busType, name, nil) {
+			note("method %s of the bus not found", name)
 			return false
 		}
-		n0, k0 := stmtCall(fd.Body.List[0])
-		n1, k1 := stmtCall(fd.Body.List[1])
-		ok := n0 == "r.mu.Lock" && k0 == "call" && n1 == "r.mu.Unlock" && k1 == "defer"
-		locks := 0
-		for _, c := range allCalls(fd) {
-			if strings.HasSuffix(c, "Lock") || strings.HasSuffix(c, "Unlock") {
-				locks++
+		seq, _ := lockSeq(in.ev)
+		ok := len(seq) == 2 && strings.HasPrefix(seq[0], "Lock:") && seq[1] == "Unlock:"+strings.TrimPrefix(seq[0], "Lock:")
+		if ok {
+			mu := strings.TrimPrefix(seq[0], "Lock:")
+			if listMu == "" {
+				listMu = mu
 			}
-			if strings.HasSuffix(c, ".HandleEvent") || strings.HasSuffix(c, ".Publish") {
+			ok = mu == listMu
+			// the unlock is the last thing that happens, the lock the first that touches the bus
+			first, last := -1, -1
+			for i, e := range in.ev {
+				if e.kind == "lock" {
+					if first < 0 {
+						first = i
+					}
+					last = i
+				}
+			}
+			for i, e := range in.ev {
+				switch e.kind {
+				case "deliver", "block":
+					ok = false
+				case "other":
+					ok = false
+					note("%s: call the generator cannot account for: %s", name, e.name)
+				case "hread", "hwrite":
+					if i < first || i > last {
+						ok = false
+					}
+				}
+			}
+			if in.ev[first].cond || in.ev[last].cond {
 				ok = false
 			}
 		}
-		if !ok || locks != 2 {
-			note("%s is not exactly one critical section under r.mu (Lock first, Unlock deferred, no other lock, no callback)", name)
-			return false
+		if !ok {
+			note("%s is not exactly one critical section under the list mutex (lock operations: %v)", name, seq)
 		}
-		return true
+		return ok
 	}
-	subscribeOnlyMu := onlyMu("subscribe")
-	unsubscribeOnlyMu := onlyMu("unsubscribe")
-	// the exported Subscribe / Unsubscribe only delegate
+	subscribeOnlyMu := oneSection("subscribe")
+	unsubscribeOnlyMu := oneSection("unsubscribe")
+	handleMu := ""
+	for m := range mutexes {
+		if m != listMu {
+			handleMu = m
+		}
+	}
+	// the exported Subscribe / Unsubscribe are subscribe / unsubscribe at application level and nothing else
 	delegates := func(name, to string) bool {
-		fd := findFunc(f, "events", name)
-		if fd == nil || len(fd.Body.List) != 1 {
-			note("method events.%s is not a one-line delegation", name)
+		in := mk(0)
+		if !in.run(busType, name, nil) {
 			return false
 		}
-		rs, ok := fd.Body.List[0].(*ast.ReturnStmt)
-		if !ok || len(rs.Results) != 1 {
-			note("method events.%s is not a one-line delegation", name)
-			return false
+		n, ok := 0, true
+		depth0 := true
+		for _, e := range in.ev {
+			if e.kind == "inline" && e.name == to && depth0 {
+				n++
+				ok = ok && e.level == in.levelConst[1] && !e.cond
+				depth0 = false
+			}
 		}
-		c, ok := rs.Results[0].(*ast.CallExpr)
-		if !ok || exprString(c.Fun) != "r."+to || len(c.Args) != 2 || exprString(c.Args[0]) != "api.EventHandlerLevelApplication" {
-			note("method events.%s does not delegate to %s at application level", name, to)
+		seq, _ := lockSeq(in.ev)
+		if n != 1 || !ok || len(seq) != 2 {
+			note("events.%s is not %s at application level and nothing else", name, to)
 			return false
 		}
 		return true
@@ -262,197 +209,278 @@ func genEventBus(outDir string) (string, error) {
 	exportedDelegate := delegates("Subscribe", "subscribe")
 	exportedDelegate = delegates("Unsubscribe", "unsubscribe") && exportedDelegate
 
-	// ---- Publish blocks on nothing but the two mutexes: every call is on a white list, there is no channel
-	//      operation, no select, no function literal, no defer, and the only `go` statement starts HandleEvent
-	blocksOnlyOnMutexes := false
-	if fd := findFunc(f, "events", "Publish"); fd != nil {
-		allowed := map[string]bool{"call:make": true, "call:len": true, "call:copy": true, "call:r.mu.Lock": true, "call:r.mu.Unlock": true,
-			"call:r.muHandle.Lock": true, "call:r.muHandle.Unlock": true, "call:item.Handler.HandleEvent": true, "go:item.Handler.HandleEvent": true}
-		bad := []string{}
-		for _, c := range allCalls(fd) {
-			if !allowed[c] {
-				bad = append(bad, c)
+	// ---- Publish, interpreted twice (abstract list [core, application] and [application, core])
+	muReleased, fourOps, spans, snapshot, coreSync, appAsync, coreFirst, blocksOnly := true, true, true, true, true, true, true, true
+	for order := 0; order < 2; order++ {
+		in := mk(order)
+		if !in.run(busType, "Publish", nil) {
+			note("method events.Publish not found")
+			muReleased, fourOps, spans, snapshot, coreSync, appAsync, coreFirst, blocksOnly = false, false, false, false, false, false, false, false
+			break
+		}
+		seq, condLock := lockSeq(in.ev)
+		// the four lock operations, in this order; the snapshot may be taken under a read lock
+		want := []string{"Lock:" + listMu, "Unlock:" + listMu, "Lock:" + handleMu, "Unlock:" + handleMu}
+		wantR := []string{"RLock:" + listMu, "RUnlock:" + listMu, "Lock:" + handleMu, "Unlock:" + handleMu}
+		same := func(a, b []string) bool { return strings.Join(a, ",") == strings.Join(b, ",") }
+		if !(same(seq, want) || same(seq, wantR)) || condLock {
+			fourOps = false
+			// is at least the release of the list mutex before the acquisition of the dispatch mutex?
+			iu, ih := -1, -1
+			for i, s := range seq {
+				if (s == "Unlock:"+listMu || s == "RUnlock:"+listMu) && iu < 0 {
+					iu = i
+				}
+				if s == "Lock:"+handleMu && ih < 0 {
+					ih = i
+				}
+			}
+			if iu < 0 || ih < 0 || iu > ih || condLock {
+				muReleased = false
+			}
+			if order == 0 {
+				note("Publish: lock operations are %v (conditional: %v), expected %v", seq, condLock, want)
 			}
 		}
-		ast.Inspect(fd.Body, func(n ast.Node) bool {
-			switch x := n.(type) {
-			case *ast.UnaryExpr:
-				if x.Op == token.ARROW {
-					bad = append(bad, "channel receive")
+		// positions
+		hl, hu := -1, -1
+		for i, e := range in.ev {
+			if e.kind == "lock" && e.name == handleMu {
+				if e.op == "Lock" && hl < 0 {
+					hl = i
 				}
-			case *ast.SendStmt:
-				bad = append(bad, "channel send")
-			case *ast.SelectStmt:
-				bad = append(bad, "select")
-			case *ast.FuncLit:
-				bad = append(bad, "function literal")
-			case *ast.DeferStmt:
-				bad = append(bad, "defer")
-			case *ast.RangeStmt:
-				if t, ok := x.X.(*ast.Ident); ok && t.Obj != nil {
-					if vs, ok := t.Obj.Decl.(*ast.ValueSpec); ok && vs.Type != nil {
-						if _, isChan := vs.Type.(*ast.ChanType); isChan {
-							bad = append(bad, "range over channel")
-						}
+				if e.op == "Unlock" {
+					hu = i
+				}
+			}
+		}
+		var deliveries []aevent
+		var dIdx []int
+		for i, e := range in.ev {
+			switch e.kind {
+			case "deliver":
+				deliveries = append(deliveries, e)
+				dIdx = append(dIdx, i)
+				if i < hl || i > hu || hl < 0 {
+					spans = false
+				}
+			case "block":
+				blocksOnly = false
+				if order == 0 {
+					note("Publish: blocking operation %s", e.name)
+				}
+			case "other":
+				blocksOnly = false
+				if order == 0 {
+					note("Publish: operation the generator cannot account for (possibly blocking): %s", e.name)
+				}
+			case "hwrite":
+				snapshot = false
+			case "hread":
+				heldList := false
+				for _, m := range e.held {
+					heldList = heldList || m == listMu
+				}
+				if !heldList || !(e.op == "len" || e.op == "copysrc" || e.op == "clone") {
+					snapshot = false
+					if order == 0 {
+						note("Publish: the handler list is read outside the list mutex or other than by len / copy / Clone (%s, held %v)", e.op, e.held)
 					}
 				}
 			}
-			return true
-		})
-		blocksOnlyOnMutexes = len(bad) == 0
-		if !blocksOnlyOnMutexes {
-			note("Publish: operations outside the white list (possible blocking): %s", strings.Join(bad, ", "))
+		}
+		if hu >= 0 {
+			for _, e := range in.ev[hu+1:] {
+				if e.kind != "inline" {
+					spans = false // something happens after the dispatch mutex is released
+				}
+			}
+		} else {
+			spans = false
+		}
+		// exactly one delivery per abstract item, unconditional, from a copy made under the list mutex
+		nCore, nApp, iCore, iApp := 0, 0, -1, -1
+		for k, d := range deliveries {
+			if d.cond || d.level == "unknown" {
+				coreSync, appAsync, coreFirst = false, false, false
+				if order == 0 {
+					note("Publish: a handler invocation the generator cannot attribute to a level (conditional=%v)", d.cond)
+				}
+			}
+			if d.list == nil || d.list.origin != "snapshot" || !d.list.copiedUnderMu {
+				snapshot = false
+			}
+			switch d.level {
+			case in.levelConst[0]:
+				nCore++
+				iCore = dIdx[k]
+				if d.op != "plain" {
+					coreSync = false
+				}
+			case in.levelConst[1]:
+				nApp++
+				iApp = dIdx[k]
+				if d.op != "go" {
+					appAsync = false
+				}
+			}
+		}
+		if nCore != 1 {
+			coreSync = false
+		}
+		if nApp != 1 {
+			appAsync = false
+		}
+		if nCore != 1 || nApp != 1 || iCore > iApp {
+			coreFirst = false
+		}
+		if len(deliveries) == 0 {
+			snapshot = false
 		}
 	}
-	// ---- the bus's state is the two mutexes and the handler list
-	stateIsMutexesAndList := false
-	for _, d := range f.Decls {
-		gd, ok := d.(*ast.GenDecl)
-		if !ok {
-			continue
-		}
-		for _, sp := range gd.Specs {
-			ts, ok := sp.(*ast.TypeSpec)
-			if !ok || ts.Name.Name != "events" {
-				continue
-			}
-			st, ok := ts.Type.(*ast.StructType)
-			if !ok {
-				continue
-			}
-			var fields []string
-			for _, fl := range st.Fields.List {
-				for _, n := range fl.Names {
-					fields = append(fields, n.Name+":"+exprString(fl.Type))
-				}
-				if len(fl.Names) == 0 {
-					fields = append(fields, "embedded:"+exprString(fl.Type))
-				}
-			}
-			sort.Strings(fields)
-			got := strings.Join(fields, ",")
-			stateIsMutexesAndList = got == "handlers:*ast.ArrayType,mu:sync.Mutex,muHandle:sync.Mutex"
-			if !stateIsMutexesAndList {
-				note("type events has fields other than mu, muHandle (sync.Mutex) and handlers: %s", got)
-			}
-		}
+	if !muReleased {
+		note("Publish: the list mutex is not released before the dispatch mutex is acquired")
+	}
+	if !spans {
+		note("Publish: the handler invocations are not enclosed by the dispatch mutex, released last")
+	}
+	if !snapshot {
+		note("Publish: the handlers are not dispatched from a copy of the list made under the list mutex")
+	}
+	if !coreSync {
+		note("Publish: a core handler is not invoked exactly once, synchronously")
+	}
+	if !appAsync {
+		note("Publish: an application handler is not started exactly once, with `go`")
+	}
+	if !coreFirst {
+		note("Publish: not every core handler is invoked before every application handler (for both orders of the list)")
 	}
 
-	// ---- spine/device_local.go: the local device subscribes itself at core level on EVERY SetupRemoteDevice
-	//      (plain top-level statement) and unsubscribes only when no peer is left; no other site touches the core level
+	// ---- package spine: the local device is put on / taken off the core level
 	coreEverySetup, coreUnsubOnlyWhenEmpty, coreSites := false, false, false
-	if fdl, err := parser.ParseFile(fset, filepath.Join(RepoDir(), "spine", "device_local.go"), nil, 0); err != nil {
-		note("spine/device_local.go: %v", err)
-	} else {
-		isCoreCall := func(e ast.Expr, name string) bool {
-			c, ok := e.(*ast.CallExpr)
-			return ok && exprString(c.Fun) == "Events."+name && len(c.Args) == 2 && exprString(c.Args[0]) == "api.EventHandlerLevelCore" && exprString(c.Args[1]) == "r"
-		}
-		if fd := findFunc(fdl, "DeviceLocal", "SetupRemoteDevice"); fd != nil {
-			top, anywhere := 0, 0
-			for _, st := range fd.Body.List {
-				switch x := st.(type) {
-				case *ast.AssignStmt:
-					if len(x.Rhs) == 1 && isCoreCall(x.Rhs[0], "subscribe") {
-						top++
-					}
-				case *ast.ExprStmt:
-					if isCoreCall(x.X, "subscribe") {
-						top++
-					}
+	{
+		in := mk(0)
+		if in.run("DeviceLocal", "SetupRemoteDevice", nil) {
+			uncond := 0
+			for _, e := range in.ev {
+				if e.kind == "coresub" && !e.cond && !e.late {
+					uncond++
 				}
 			}
-			ast.Inspect(fd.Body, func(n ast.Node) bool {
-				if e, ok := n.(ast.Expr); ok && isCoreCall(e, "subscribe") {
-					anywhere++
-				}
-				return true
-			})
-			coreEverySetup = top == 1 && anywhere == 1
+			coreEverySetup = uncond >= 1
 		}
 		if !coreEverySetup {
-			note("SetupRemoteDevice does not subscribe the local device at core level by one unconditional top-level statement")
+			note("SetupRemoteDevice does not reach `Events.subscribe(core level, the local device)` on every path")
 		}
-		if fd := findFunc(fdl, "DeviceLocal", "RemoveRemoteDevice"); fd != nil {
-			guarded, total := 0, 0
-			emptyCond := func(e ast.Expr) bool {
-				if be, ok := e.(*ast.BinaryExpr); ok && be.Op == token.EQL {
-					if c, ok := be.X.(*ast.CallExpr); ok && exprString(c.Fun) == "len" && len(c.Args) == 1 && exprString(c.Args[0]) == "r.remoteDevices" {
-						if l, ok := be.Y.(*ast.BasicLit); ok && l.Value == "0" {
-							return true
+		in = mk(0)
+		if in.run("DeviceLocal", "RemoveRemoteDevice", nil) {
+			n, guarded := 0, 0
+			for _, e := range in.ev {
+				if e.kind == "coreunsub" {
+					n++
+					for _, g := range e.guards {
+						if g == "nopeers" {
+							guarded++
+							break
 						}
 					}
 				}
-				return false
 			}
-			flags := map[string]bool{} // identifiers defined as len(r.remoteDevices) == 0
-			ast.Inspect(fd.Body, func(n ast.Node) bool {
-				if as, ok := n.(*ast.AssignStmt); ok && len(as.Lhs) == 1 && len(as.Rhs) == 1 && emptyCond(as.Rhs[0]) {
-					flags[exprString(as.Lhs[0])] = true
-				}
-				return true
-			})
-			ast.Inspect(fd.Body, func(n ast.Node) bool {
-				if e, ok := n.(ast.Expr); ok && isCoreCall(e, "unsubscribe") {
-					total++
-				}
-				if is, ok := n.(*ast.IfStmt); ok && is.Else == nil && (emptyCond(is.Cond) || flags[exprString(is.Cond)]) {
-					ast.Inspect(is.Body, func(m ast.Node) bool {
-						if e, ok := m.(ast.Expr); ok && isCoreCall(e, "unsubscribe") {
-							guarded++
-						}
-						return true
-					})
-				}
-				return true
-			})
-			coreUnsubOnlyWhenEmpty = total == 1 && guarded == 1
+			coreUnsubOnlyWhenEmpty = n == 1 && guarded == 1
 		}
 		if !coreUnsubOnlyWhenEmpty {
-			note("RemoveRemoteDevice does not unsubscribe the local device exactly once, under `len(r.remoteDevices) == 0`")
+			note("RemoveRemoteDevice does not unsubscribe the local device exactly once, under `len(remoteDevices) == 0`")
 		}
-		// no other site in package spine (tests and the verif hook file aside) calls the unexported subscribe / unsubscribe
-		sub, unsub := 0, 0
-		files, _ := filepath.Glob(filepath.Join(RepoDir(), "spine", "*.go"))
-		for _, fn := range files {
-			base := filepath.Base(fn)
-			if strings.HasSuffix(base, "_test.go") || strings.HasPrefix(base, "verif_hooks") || base == "events.go" {
+		// every call site of the unexported subscribe / unsubscribe outside events.go lies in SetupRemoteDevice /
+		// RemoveRemoteDevice or in a helper that only those two call
+		type site struct{ fn, what string }
+		var sites []site
+		callers := map[string]map[string]bool{} // callee name -> set of caller function keys
+		for base, f := range pkg.files {
+			if base == "events.go" {
 				continue
 			}
-			src, err := os.ReadFile(fn)
-			if err != nil {
+			for _, d := range f.Decls {
+				fd, ok := d.(*ast.FuncDecl)
+				if !ok || fd.Body == nil {
+					continue
+				}
+				key := fd.Name.Name
+				if rt := recvTypeName(fd); rt != "" {
+					key = rt + "." + key
+				}
+				ast.Inspect(fd.Body, func(n ast.Node) bool {
+					c, ok := n.(*ast.CallExpr)
+					if !ok {
+						return true
+					}
+					if se, ok := c.Fun.(*ast.SelectorExpr); ok {
+						if id, ok := se.X.(*ast.Ident); ok && id.Name == "Events" && (se.Sel.Name == "subscribe" || se.Sel.Name == "unsubscribe") {
+							sites = append(sites, site{key, se.Sel.Name})
+						}
+						if callers[se.Sel.Name] == nil {
+							callers[se.Sel.Name] = map[string]bool{}
+						}
+						callers[se.Sel.Name][key] = true
+					}
+					if id, ok := c.Fun.(*ast.Ident); ok {
+						if callers[id.Name] == nil {
+							callers[id.Name] = map[string]bool{}
+						}
+						callers[id.Name][key] = true
+					}
+					return true
+				})
+			}
+		}
+		nSub, nUnsub := 0, 0
+		coreSites = true
+		for _, s := range sites {
+			owner := map[string]string{"subscribe": "DeviceLocal.SetupRemoteDevice", "unsubscribe": "DeviceLocal.RemoveRemoteDevice"}[s.what]
+			if s.what == "subscribe" {
+				nSub++
+			} else {
+				nUnsub++
+			}
+			if s.fn == owner {
 				continue
 			}
-			sub += strings.Count(string(src), "Events.subscribe(")
-			unsub += strings.Count(string(src), "Events.unsubscribe(")
+			short := s.fn[strings.LastIndex(s.fn, ".")+1:]
+			cs := callers[short]
+			if len(cs) != 1 || !cs[owner] {
+				coreSites = false
+				note("Events.%s is called in %s, which is not (only) reached from %s", s.what, s.fn, owner)
+			}
 		}
-		coreSites = sub == 1 && unsub == 1
-		if !coreSites {
-			note("package spine calls Events.subscribe %d times and Events.unsubscribe %d times outside events.go (expected 1 and 1, in device_local.go)", sub, unsub)
+		if nSub != 1 || nUnsub != 1 {
+			coreSites = false
+			note("package spine calls Events.subscribe %d times and Events.unsubscribe %d times outside events.go (expected 1 and 1)", nSub, nUnsub)
 		}
 	}
 
 	var b strings.Builder
-	b.WriteString("/-! GENERATED by go/cmd/translate (generator `eventbus`) from spine/events.go — do not edit. -/\n")
+	b.WriteString("/-! GENERATED by go/cmd/translate (generator `eventbus`) from package spine (events.go, device_local*.go) — do not edit.\n")
+	b.WriteString("    Facts are computed by abstract interpretation with helpers of the package inlined (go/cmd/translate/absint.go). -/\n")
 	b.WriteString("namespace Spine.Generated.EventBus\n\n")
 	w := func(doc, name string, v bool) {
 		fmt.Fprintf(&b, "/-- %s -/\ndef %s : Bool := %v\n\n", doc, name, v)
 	}
-	w("in Publish, `r.mu.Lock()` … `r.mu.Unlock()` come, in this order, before `r.muHandle.Lock()`: a publisher that waits for muHandle does not hold mu", "muReleasedBeforeMuHandle", muUnlockBeforeHandleLock)
-	w("in Publish, the only dispatch loop lies between `r.muHandle.Lock()` and `r.muHandle.Unlock()`, the latter being the last statement", "muHandleSpansDispatch", handleSpansDispatch)
-	w("Publish contains no lock operation besides those four plain statements (none deferred, none nested)", "publishFourLockOps", publishOnlyTwoLocks)
-	w("under mu, Publish makes a fresh slice, fills it with copy(_, r.handlers) and dispatches from that slice only", "snapshotIsCopy", snapshotIsCopy)
-	w("a core-level handler is called synchronously (plain call) in Publish", "coreSynchronous", coreSync)
-	w("an application-level handler is started with `go` in Publish", "applicationAsync", appAsync)
-	w("the levels are processed in the order core, application", "coreLevelFirst", coreFirst)
-	w("subscribe is one critical section under mu: Lock first, Unlock deferred, no other lock, no callback", "subscribeOnlyMu", subscribeOnlyMu)
-	w("unsubscribe is one critical section under mu: Lock first, Unlock deferred, no other lock, no callback", "unsubscribeOnlyMu", unsubscribeOnlyMu)
-	w("the exported Subscribe / Unsubscribe only delegate to subscribe / unsubscribe at application level", "exportedDelegate", exportedDelegate)
-	w("every operation in Publish is on the white list {make, len, copy, the four mutex operations, HandleEvent plain and with `go`}: no WaitGroup / Cond wait, no channel operation, no select, no function literal, no defer — Publish blocks on nothing but mu and muHandle", "publishBlocksOnlyOnTheTwoMutexes", blocksOnlyOnMutexes)
-	w("the state of the bus is exactly mu, muHandle (sync.Mutex) and the handler list", "stateIsTwoMutexesAndList", stateIsMutexesAndList)
-	w("spine/device_local.go: SetupRemoteDevice subscribes the local device at core level by one unconditional top-level statement (on every call)", "coreSubscribedOnEverySetup", coreEverySetup)
-	w("spine/device_local.go: RemoveRemoteDevice unsubscribes the local device exactly once, under `len(r.remoteDevices) == 0`", "coreUnsubscribedOnlyWhenNoPeerLeft", coreUnsubOnlyWhenEmpty)
-	w("no other site of package spine calls the unexported Events.subscribe / Events.unsubscribe", "coreLevelSitesAreThoseTwo", coreSites)
+	w("running Publish (helpers inlined) releases the list mutex before it acquires the dispatch mutex: a publisher that waits for the dispatch mutex does not hold the list mutex", "muReleasedBeforeMuHandle", muReleased)
+	w("the handler invocations of Publish lie between the acquisition and the release of the dispatch mutex, and nothing happens after the release", "muHandleSpansDispatch", spans)
+	w("the lock operations of Publish (helpers inlined, deferred calls run at the end of their frame) are exactly: lock list mutex, unlock it, lock dispatch mutex, unlock it — none on a conditional path", "publishFourLockOps", fourOps)
+	w("under the list mutex Publish copies the handler list (make+copy or Clone) and every handler it invokes is taken from that copy; the list itself is only read under the mutex, by len / copy / Clone", "snapshotIsCopy", snapshot)
+	w("for either order of the list, a core-level item is invoked exactly once, by a plain call", "coreSynchronous", coreSync)
+	w("for either order of the list, an application-level item is started exactly once, with `go`", "applicationAsync", appAsync)
+	w("for either order of the list, the core-level item is invoked before the application-level item is started", "coreLevelFirst", coreFirst)
+	w("subscribe is one critical section under the list mutex: write lock first, unlock last, no other lock, no handler invocation, no blocking or unaccounted call", "subscribeOnlyMu", subscribeOnlyMu)
+	w("unsubscribe is one critical section under the list mutex: write lock first, unlock last, no other lock, no handler invocation, no blocking or unaccounted call", "unsubscribeOnlyMu", unsubscribeOnlyMu)
+	w("the exported Subscribe / Unsubscribe are subscribe / unsubscribe at application level and nothing else", "exportedDelegate", exportedDelegate)
+	w("Publish (helpers inlined) performs nothing but make / len / copy / Clone, the four mutex operations and the handler invocations: no WaitGroup / Cond wait, no channel operation, no select, no call the generator cannot account for — it blocks on nothing but the two mutexes", "publishBlocksOnlyOnTheTwoMutexes", blocksOnly)
+	w("the state of the bus is exactly two mutexes and the handler list", "stateIsTwoMutexesAndList", stateOK)
+	w("package spine: SetupRemoteDevice reaches `Events.subscribe(core level, the local device)` on every path (directly or through helpers)", "coreSubscribedOnEverySetup", coreEverySetup)
+	w("package spine: RemoveRemoteDevice unsubscribes the local device exactly once, on the path guarded by `len(remoteDevices) == 0` (directly or through helpers)", "coreUnsubscribedOnlyWhenNoPeerLeft", coreUnsubOnlyWhenEmpty)
+	w("package spine: the unexported Events.subscribe / Events.unsubscribe are called once each outside events.go, in SetupRemoteDevice / RemoveRemoteDevice or a helper only they call", "coreLevelSitesAreThoseTwo", coreSites)
 	for _, n := range notes {
 		fmt.Fprintf(&b, "-- note: %s\n", n)
 	}
@@ -460,6 +488,6 @@ func genEventBus(outDir string) (string, error) {
 	if err := writeFile(outDir, "EventBus.lean", b.String()); err != nil {
 		return "", err
 	}
-	return fmt.Sprintf("muReleasedBeforeMuHandle=%v muHandleSpansDispatch=%v fourLockOps=%v snapshotIsCopy=%v coreSync=%v appAsync=%v coreFirst=%v subscribeOnlyMu=%v unsubscribeOnlyMu=%v delegate=%v notes=%d",
-		muUnlockBeforeHandleLock, handleSpansDispatch, publishOnlyTwoLocks, snapshotIsCopy, coreSync, appAsync, coreFirst, subscribeOnlyMu, unsubscribeOnlyMu, exportedDelegate, len(notes)) + fmt.Sprintf(" blocksOnlyOnMutexes=%v state=%v coreEverySetup=%v coreUnsubWhenEmpty=%v coreSites=%v", blocksOnlyOnMutexes, stateIsMutexesAndList, coreEverySetup, coreUnsubOnlyWhenEmpty, coreSites), nil
+	return fmt.Sprintf("muReleasedBeforeMuHandle=%v muHandleSpansDispatch=%v fourLockOps=%v snapshotIsCopy=%v coreSync=%v appAsync=%v coreFirst=%v subscribeOnlyMu=%v unsubscribeOnlyMu=%v delegate=%v blocksOnlyOnMutexes=%v state=%v coreEverySetup=%v coreUnsubWhenEmpty=%v coreSites=%v notes=%d",
+		muReleased, spans, fourOps, snapshot, coreSync, appAsync, coreFirst, subscribeOnlyMu, unsubscribeOnlyMu, exportedDelegate, blocksOnly, stateOK, coreEverySetup, coreUnsubOnlyWhenEmpty, coreSites, len(notes)), nil
 }
